@@ -185,7 +185,7 @@ def replay_readme(cex, d):
         if ob.startswith('README-array'):
             n, k = int(fx['n']), int(fx['k'])
             if max(n, k) > 3000:
-                return {'reproduced': False, 'detail': 'too large'}
+                return {'reproduced': False, 'skip': True, 'detail': 'too large'}
             nt, bo, op = fx['numtype'], fx['bo'], fx['op']
             md = {'k': 1} if op in ('md-delete', 'copy') else None
             orig = rp.values(np_, n, atom, nt, bo)
@@ -223,7 +223,7 @@ def replay_readme(cex, d):
             lens = [int(fx[f'l{i + 1}']) for i in range(K)]
             k = int(fx['k'])
             if max(lens + [k]) > 3000:
-                return {'reproduced': False, 'detail': 'too large'}
+                return {'reproduced': False, 'skip': True, 'detail': 'too large'}
             nt, op = fx['numtype'], fx['op']
             subs = [rp.values(np_, l, atom, nt, 'little', 1 + 3 * i) for i, l in enumerate(lens)]
             ra = darr.asraggedarray(tmp + '/r', subs, accessmode='r+') if subs else darr.create_raggedarray(
